@@ -2,7 +2,9 @@
 //   --mode structure --class <name> : --cases streams of class <name>; events per (api, class/options)
 //   --mode text                     : robustness; reads one input from --file, tokenizes it with every
 //                                     option set, stripComments, walks the tokens; prints "DONE <n>"
-//   --mode batch                    : robustness; --file lists "<hexlen> <hex bytes>" inputs, one per line
+//   --mode batch                    : robustness; --file holds one hex-encoded input per line
+//   --mode fuzz                     : robustness; --corpus lists seed files; case idx mutates one of them (or draws
+//                                     random bytes); prints "@@CASE i idx size" before each case; --from/--only/--dump
 #define VFH_MAIN
 #include "vfh.hxx"
 #include <fstream>
